@@ -251,3 +251,18 @@ CLAIMED["C13"] = {
             "theorems (C03 covers panics; the oracle still checks those commands).",
     "technique": "Lean 4 theorems over a bit-level binary64 model with uninterpreted rounding arithmetic (induction over call histories, omega) + bit-exact differential correspondence of the full filter state + independent oracle",
 }
+
+CLAIMED["C02"] = {
+    "text": "Partial. Convergence of the closed loop is not proved (it is a statement about floating-point trajectories under random "
+            "jitter); it is decided on sampled closed-loop scenarios: the real KalmanFilter disciplining a simulated clock over the "
+            "whole quantifier domain (offsets ±10 s, ±150 ppm, delay 1-400 us, jitter 0-20 us, intervals 2^-3..2^1 s, random delay-request "
+            "spacing, out-of-order delay measurements, update timer), with an oracle on the true offset (below 500 ns + 1.5 x jitter "
+            "within 60 + 350·I s, staying there, no step afterwards). Every call of every scenario is also compared bit for bit with the "
+            "Lean servo model. Proved in Lean, for every rounding arithmetic and every filter state: below the step threshold the servo "
+            "gives at most one frequency command and never a step (no_step_below_threshold, step_only_at_threshold); steer programs "
+            "slewTarget of the estimate (steer_slews_to_target); outside the dead zone the slew target has the sign opposite to the "
+            "estimated offset, for every arithmetic with the IEEE sign rule (steering_opposes_offset).",
+    "note": "Trusted: Lean kernel; the closed-loop simulator (harness/src/streams/gen_loop.rs: clock model, path model, event queue); "
+            "generators; the calibration of bound and deadline. The convergence verdict is bounded simulation, not proof.",
+    "technique": "Lean 4 theorems for the control law's structure + bit-exact differential correspondence of the servo on closed-loop histories + closed-loop simulation oracle (sampling) for convergence",
+}
